@@ -168,8 +168,15 @@ RuleSetsOf(U, k) ==      \* the sets {r1} and {r1, r2}, r1 = the rule of U with 
     IN {x \in {{r1, r2} : r2 \in {y \in U : RKey(y) >= k}} : ~Ambiguous(x)}
 Buckets01 == {<<"R", RKey(r)>> : r \in AllPlaced} \cup {<<"L", 0>>}
                 \cup {<<"F", i>> : i \in 1..10}
+\* Quick tier: pairs are drawn from the places allow / custom / off only (block
+\* lists and custom rules feed the same engine; the block-list placement is
+\* still covered by the one-rule sets, the ladders and stratum F).
+QuickRuleSetsOf(k) ==
+    LET r1 == CHOOSE r \in AllPlaced : RKey(r) = k
+    IN IF r1.place = "block" THEN {{r1}}
+       ELSE {x \in {{r1, r2} : r2 \in {y \in AllPlaced : RKey(y) >= k /\ y.place # "block"}} : ~Ambiguous(x)}
 StratumRB(b) ==
-    IF b[1] = "R" THEN {MkR(rs, "rot") : rs \in RuleSetsOf(AllPlaced, b[2])}
+    IF b[1] = "R" THEN {MkR(rs, "rot") : rs \in (IF AllModes THEN RuleSetsOf(AllPlaced, b[2]) ELSE QuickRuleSetsOf(b[2]))}
     ELSE {MkR(rs, "rot") : rs \in {{}} \cup Ladders}
 
 \* Stratum F: a few representative rule sets crossed with every combination
@@ -299,7 +306,7 @@ Init == cfg = NoCfg /\ req = NoReq /\ p = Idle /\ tab = <<>> /\ bk = <<"", 0>>
 
 \* --- SpecMC: the pipeline step by step over a reduced universe
 MCConfigs ==
-    {FixMode(MkR(rs, "rot")) : rs \in {{}} \cup {{r} : r \in AllPlaced} \cup Ladders}
+    {FixMode(MkR(rs, "rot")) : rs \in {{}} \cup {{r} : r \in {x \in AllPlaced : x.place # "block"}} \cup Ladders}
       \cup {FixMode(c) : c \in {x \in UNION {StratumFB(i) : i \in {4, 7}} :
                /\ x.mode \in {"rot", "default"} /\ x.prot \in {"on", "off", "expired"}
                /\ (x.client.known => x.client.svc \in {"inherit", "active"})}}
